@@ -364,6 +364,8 @@ def _ovf_guard(o, ok, what):
 
 def arith(o, op, a, b):
     """i32 `a op b` with the interpreter's failure conditions; o = Oracle"""
+    if op == "+" and isinstance(a, tuple) and isinstance(b, tuple) and a[0] == "str" and b[0] == "str":
+        return ("str", a[1] + b[1])          # concatenation of concrete strings
     if not (is_int(a) and is_int(b)):
         raise Unsupported("arithmetic on non-int operands: %r %s %r" % (a, op, b))
     if not is_sym(a) and not is_sym(b):
